@@ -665,6 +665,10 @@ func (hc *histogramCounts) observe(v float64, bucket int, doSparse bool) {
 			zeroThreshold        = math.Float64frombits(atomic.LoadUint64(&hc.nativeHistogramZeroThresholdBits))
 			bucketCreated, isInf bool
 		)
+		// The zero bucket decision below has to use the original value: an
+		// infinite v is replaced by ±MaxFloat64 for the key calculation, but
+		// the zero threshold can grow up to MaxFloat64, too.
+		origV := v
 		if math.IsInf(v, 0) {
 			// Pretend v is MaxFloat64 but later increment key by one.
 			if math.IsInf(v, +1) {
@@ -690,9 +694,9 @@ func (hc *histogramCounts) observe(v float64, bucket int, doSparse bool) {
 			key++
 		}
 		switch {
-		case v > zeroThreshold:
+		case origV > zeroThreshold:
 			bucketCreated = addToBucket(&hc.nativeHistogramBucketsPositive, key, 1)
-		case v < -zeroThreshold:
+		case origV < -zeroThreshold:
 			bucketCreated = addToBucket(&hc.nativeHistogramBucketsNegative, key, 1)
 		default:
 			atomic.AddUint64(&hc.nativeHistogramZeroBucket, 1)
